@@ -1282,3 +1282,31 @@ assumed("numpy-ndarray-setstate", "ndarray.__setstate__(state) restores shape, d
         "pickled state; it does not look at or touch the units attribute")
 UD.SUPER_ATTR[("unyt_array", "__setstate__")] = lambda it, obj: Intrinsic(
     "ndarray.__setstate__", lambda it_, state: None)
+
+
+assumed("numpy-ndarray-setitem", "ndarray.__setitem__(index, value) copies the numbers of `value` (a number, a bare array or "
+        "a unyt array: its units are not looked at) into the selected elements of the array's own buffer, cast to the "
+        "array's dtype; nothing else is written.  The abstraction's arbitrary element is either one of the selected "
+        "elements (it now holds value's number) or one that was not selected (unchanged): both are explored")
+
+
+def _super_setitem(it, obj):
+    def setitem(it_, index, value):
+        value = const_float(value)
+        if is_array(value):
+            e = read_elem(it_, value)
+        else:
+            e = scalar_term(it_, value)
+            if e is None:
+                raise Unsupported("ndarray.__setitem__ with value %r" % (value,))
+        b = arr_buf(obj)
+        b.writes += 1
+        it_.ctx.events.append(("buf-write", b.bid))
+        if it_.branch(it_.fresh_bool("arbitrary_element_is_assigned")):
+            b.elem = to_real(e)
+            b.assigned_from = value
+        return None
+    return Intrinsic("ndarray.__setitem__", setitem)
+
+
+UD.SUPER_ATTR[("unyt_array", "__setitem__")] = _super_setitem
